@@ -13,14 +13,14 @@ CH = {"NL": "\n", "U": "é"}
 
 FAMILIES = {
     # name: (PatToks const, PatLen, SubChars const, SubLen, extglob, nchunks, contexts)
-    "plain": ("Q_PatToks", 4, "Q_SubChars", 3, False, 10, ("case", "test", "glob")),
-    "class": ("C_PatToks", 3, "C_SubChars", 2, False, 7, ("case", "test", "nocase")),
-    "ext": ("E_PatToks", 5, "E_SubChars", 3, True, 10, ("case", "test")),
+    "plain": ("Q_PatToks", 4, "Q_SubChars", 3, False, 10, ("case", "test", "glob", "pre", "suf")),
+    "class": ("C_PatToks", 3, "C_SubChars", 2, False, 7, ("case", "test", "nocase", "pre", "suf")),
+    "ext": ("E_PatToks", 5, "E_SubChars", 3, True, 10, ("case", "test", "pre", "suf")),
 }
 THOROUGH = {
-    "plain": ("Q_PatToks", 5, "Q_SubChars", 3, False, 10, ("case", "test")),
-    "class": ("C_PatToks", 4, "C_SubChars", 3, False, 14, ("case", "test", "nocase")),
-    "ext": ("E_PatToks", 6, "E_SubChars", 3, True, 10, ("case", "test")),
+    "plain": ("Q_PatToks", 5, "Q_SubChars", 3, False, 10, ("case", "test", "pre", "suf")),
+    "class": ("C_PatToks", 4, "C_SubChars", 3, False, 14, ("case", "test", "nocase", "pre", "suf")),
+    "ext": ("E_PatToks", 6, "E_SubChars", 3, True, 10, ("case", "test", "pre", "suf")),
 }
 
 
@@ -81,6 +81,12 @@ def build_script(pats, subs, spec, contexts):
         L.append('  out=; for si in "${!subs[@]}"; do if [[ ${subs[si]} == $p ]]; then out+=" $si"; fi; done; echo "t$pi:$out"')
     if "nocase" in contexts:
         L.append('  shopt -s nocasematch; out=; for si in "${!subs[@]}"; do case ${subs[si]} in $p) out+=" $si";; esac; done; echo "n$pi:$out"; shopt -u nocasematch')
+    # the pattern operators of parameter expansion: removing the LONGEST matching prefix / suffix leaves nothing exactly when the pattern
+    # matches the whole (non-empty) subject
+    if "pre" in contexts:
+        L.append('  out=; for si in "${!subs[@]}"; do x=${subs[si]}; if [ -n "$x" ] && [ -z "${x##$p}" ]; then out+=" $si"; fi; done; echo "P$pi:$out"')
+    if "suf" in contexts:
+        L.append('  out=; for si in "${!subs[@]}"; do x=${subs[si]}; if [ -n "$x" ] && [ -z "${x%%$p}" ]; then out+=" $si"; fi; done; echo "S$pi:$out"')
     L.append("done")
     if "glob" in contexts:
         L.append("mkdir d && cd d || exit 9")
@@ -93,7 +99,7 @@ def build_script(pats, subs, spec, contexts):
 def parse_out(out):
     res = {}
     for ln in out.splitlines():
-        m = re.match(r"^([ctng])(\d+):(.*)$", ln)
+        m = re.match(r"^([ctngPS])(\d+):(.*)$", ln)
         if m:
             res[(m.group(1), int(m.group(2)))] = m.group(3)
     return res
@@ -102,7 +108,7 @@ def parse_out(out):
 def expected(row, subs, ctx):
     key = "mnc" if ctx == "n" else "m"
     hits = set(json.dumps(s) for s in row[key])
-    return [i for i, s in enumerate(subs) if json.dumps(s) in hits]
+    return [i for i, s in enumerate(subs) if json.dumps(s) in hits and (s or ctx not in ("P", "S"))]
 
 
 def run(tier):
@@ -133,7 +139,7 @@ def run(tier):
                 continue
             ob, orr = parse_out(b["out"]), parse_out(r["out"])
             for i, row in enumerate(chunk):
-                for ctxname, tag in (("case", "c"), ("test", "t"), ("nocase", "n")):
+                for ctxname, tag in (("case", "c"), ("test", "t"), ("nocase", "n"), ("pre", "P"), ("suf", "S")):
                     if ctxname not in contexts:
                         continue
                     evals += len(subs)
@@ -178,7 +184,7 @@ def run(tier):
                 "openers | ), L=5) x every subject of <= 3 characters; states = (pattern, subject) pairs decided by Glob.tla's Match inside TLC; a pattern is "
                 "non-trivial/judged when WellDefined holds (POSIX-unspecified texts are not judged); evaluations = pattern x subject x context evaluations in brush",
         "patterns": total_pats, "patterns_with_defined_meaning": defined, "exhaustive": True, "samples": samples,
-        "contexts": ["case $s in $p)", "[[ $s == $p ]]", "pathname expansion (plain family)", "nocasematch (class family)"],
+        "contexts": ["case $s in $p)", "[[ $s == $p ]]", "${s##$p} and ${s%%$p} leave nothing", "pathname expansion (plain family)", "nocasematch (class family)"],
     }, assumptions=["bash 5.2.15 is the authority for \"matches\"; a pattern/context counts only if bash reproduces the model's set",
                     "locale C.UTF-8 (code-point order for ranges and sorting)", "pattern delivered as the value of an unquoted expansion"])
 
